@@ -228,6 +228,10 @@ func (u *upstream) MakeRequestToHost(addr string, req *simpleRequest) {
 
 	c, err := u.getClient(addr)
 	if err != nil {
+		// The host may have been replaced by another one (e.g. a failover),
+		// the failure is the only hint of that, nothing else would ask for
+		// the new slots info before the periodic refresh.
+		u.triggerSlotsRefresh()
 		req.SetResponse(newError(err.Error()))
 		return
 	}
@@ -293,6 +297,12 @@ func (u *upstream) createClient(addr string) (*client, error) {
 	go func() {
 		c.Start()
 		u.removeExitedClient(addr, c)
+		// the connection was lost or closed by the backend, see above.
+		select {
+		case <-u.quit:
+		default:
+			u.triggerSlotsRefresh()
+		}
 	}()
 	u.addClientLocked(addr, c)
 	return c, nil
